@@ -66,6 +66,7 @@ func runC18(ctx *core.Ctx) {
 	ctx.Rule("RI5", "lookahead discipline: the byte on which the identifier and keyword readers decide 'the token ends here' is obtained with peekByte, never with a consuming read", 3)
 	ctx.Rule("RI6", "raw reads inside tokens: every peekByte/nextByte call inside a loop of readKeyword, readIdent or readString passes skipSpace=false", 4)
 	ctx.Rule("RI7", "identifier byte class: the predicate the identifier reader uses is a pure combination of comparisons of its byte with constants, and the set it accepts - computed exactly over the 256 byte values by splitting the value set at every comparison - is [A-Za-z0-9_] plus every byte >= 0x80", 1)
+	ctx.Rule("RI10", "line comments: in peekByte the small loop that skips a // comment compares the current byte with '\\n' only", 0)
 	ctx.Rule("RI9", "import names: readImport consumes a single byte as the whole name only on paths where that byte was found equal to '.'; every other name goes through the identifier reader", 1)
 	ctx.Rule("RI8", "escapes in interpreted strings: readString contains a consuming read that is executed exactly when the byte just read is a backslash", 1)
 	ctx.Rule("RI4", "loop guards: every loop in the functions reachable from ReadImports/ReadComments has an exit whose condition depends on the reader's err/eof state (directly or through peekByte/nextByte, which return 0 once an error is set); the explicit panic is reachable only behind the error-iteration counter", 5)
@@ -370,6 +371,73 @@ func runC18(ctx *core.Ctx) {
 				})
 				if n == 0 {
 					ctx.Note("RI9", "imports.readImport#one-byte-name", rimp.Pos(), "readImport consumes no single byte itself")
+				}
+			}
+			// RI10: a line comment ends at a newline and nowhere else
+			{
+				g := graph(p, peek)
+				n := 0
+				for _, l := range loopsOf(g) {
+					// the loop that skips a line comment: it does nothing but read bytes
+					onlyReads, reads := true, 0
+					ks := map[int64]bool{}
+					for bi := range l.Blocks {
+						for _, ins := range peek.Blocks[bi].Instrs {
+							switch x := ins.(type) {
+							case *ssa.Call:
+								if cal := x.Call.StaticCallee(); cal != nil && cal.Name() == "readByte" {
+									reads++
+								} else {
+									onlyReads = false
+								}
+							case *ssa.If:
+								if b, isB := x.Cond.(*ssa.BinOp); isB && (b.Op == token.EQL || b.Op == token.NEQ) {
+									if k, isK := ssax.ConstInt(b.Y); isK && b.X.Type().String() == "byte" {
+										ks[k] = true
+									}
+								}
+							}
+						}
+					}
+					if !onlyReads || reads == 0 || !ks['\n'] {
+						continue
+					}
+					n++
+					only := len(ks) == 1
+					ctx.Check(only, "RI10", "imports.peekByte#line-comment"+itoa(n), peek.Blocks[l.Header].Instrs[0].Pos(), "the loop that skips a // comment stops at '\\n' only (byte constants tested: %d); a bare carriage return does not end a comment in Go", len(ks))
+				}
+				if n == 0 {
+					ctx.Note("RI10", "imports.peekByte#line-comment", peek.Pos(), "no small loop testing for newline found in peekByte; clause not decided")
+				}
+			}
+			// RI3b: the mark is dropped only when it was actually seen
+			{
+				g := graph(p, ri)
+				n := 0
+				for _, d := range g.Calls("(*bufio.Reader).Discard") {
+					n++
+					facts := g.FactsAtInstr(d)
+					var peeked, perr ssa.Value
+					for _, pc := range g.Calls("(*bufio.Reader).Peek") {
+						if g.Dominates(pc, d) {
+							peeked, perr = ssax.Extracted(pc, 0), ssax.Extracted(pc, 1)
+						}
+					}
+					okErr := perr != nil && ssax.KnownNil(facts, perr, true)
+					okCmp := peeked != nil && hasFact(facts, true, func(v ssa.Value) bool {
+						c, ok := v.(*ssa.Call)
+						if !ok || len(c.Call.Args) != 2 {
+							return false
+						}
+						switch ssax.CalleeName(&c.Call) {
+						case "bytes.Equal":
+							return c.Call.Args[0] == peeked || c.Call.Args[1] == peeked
+						case "bytes.HasPrefix":
+							return c.Call.Args[0] == peeked
+						}
+						return false
+					})
+					ctx.Check(okErr && okCmp, "RI3", "imports.ReadImports#bom-discard"+itoa(n), d.Pos(), "bytes are discarded only after a successful Peek (%v) whose result was found to be the mark (%v): a short or failed Peek must leave the input alone, it is returned to the caller as read", okErr, okCmp)
 				}
 			}
 			// RI8: a backslash inside an interpreted string takes the next byte with it
